@@ -62,8 +62,27 @@ func goRuns(bs []bool) []int {
 	return rs
 }
 
+// pmvFloatExact: the float64 computation of PatternMatchVariance is exact (all intermediate values are
+// small dyadic rationals) when T/P is dyadic and the variance limit a/b is dyadic; then a run lying EXACTLY on
+// the limit must be decided like the exact model (`>` is strict), and is not a borderline case.
+func pmvFloatExact(T, P int, b int64) bool {
+	if P <= 0 || T <= 0 {
+		return false
+	}
+	for P%2 == 0 {
+		P /= 2
+	}
+	return T%P == 0 && b&(b-1) == 0
+}
+
 // parse "N/D m=MN/MD" or "inf m=.."
-func cmpPMV(goOut, model string) (ok, skip bool) {
+func cmpPMV(goOut, model string) (ok, skip bool) { return cmpPMVx(false)(goOut, model) }
+
+func cmpPMVx(exact bool) func(goOut, model string) (ok, skip bool) {
+	return func(goOut, model string) (ok, skip bool) { return cmpPMVi(exact, goOut, model) }
+}
+
+func cmpPMVi(exact bool, goOut, model string) (ok, skip bool) {
 	parts := strings.Split(model, " ")
 	if len(parts) != 2 || !strings.HasPrefix(parts[1], "m=") {
 		return goOut == model, false
@@ -71,7 +90,7 @@ func cmpPMV(goOut, model string) (ok, skip bool) {
 	m, ok1 := new(big.Rat).SetString(parts[1][2:])
 	if ok1 {
 		mf, _ := m.Float64()
-		if mf < 1e-9 {
+		if mf < 1e-9 && !(exact && m.Sign() == 0) {
 			return true, true // float rounding may decide the `variance > max` test either way
 		}
 	}
@@ -241,18 +260,20 @@ func runC20(c *Ctx) {
 	pmvCase := func(cs, ps []int, lim [2]int64) {
 		mv := float64(lim[0]) / float64(lim[1])
 		goOut := Safe(func() string { return fmtF(oned.PatternMatchVariance(cs, ps, mv)) })
-		c.CmpF("pmv", fmt.Sprintf("c20 pmv %s %s %d %d", ints(cs), ints(ps), lim[0], lim[1]), goOut, cmpPMV)
-		T := 0
-		for _, x := range cs {
+		T, Pq := 0, 0
+		for i, x := range cs {
 			T += x
+			Pq += ps[i]
 		}
+		exact := pmvFloatExact(T, Pq, lim[1])
+		c.CmpF("pmv", fmt.Sprintf("c20 pmv %s %s %d %d", ints(cs), ints(ps), lim[0], lim[1]), goOut, cmpPMVx(exact))
 		inf, val, margin := refPMV(cs, ps, lim[0], lim[1])
 		mf, _ := margin.Float64()
 		okv := true
 		switch {
 		case T == 0:
 			okv = true // degenerate: no pixels at all (0/0); the statement does not cover it
-		case mf < 1e-9:
+		case mf < 1e-9 && !(exact && margin.Sign() == 0):
 			c.Note("pmv:borderline-skipped")
 		case inf:
 			okv = goOut == "inf"
